@@ -66,6 +66,19 @@ func genC10(tier string, r *rng, emit func(string)) {
 			if r.intn(25) == 0 && (form == "" || form == ":api") {
 				axis = len(sh) + 1 // invalid axis
 			}
+			if form == ":h" || form == ":v" {
+				// slicing may have dropped axes: the shorthands are emitted only when every operand
+				// really has the rank they demand (their own rank refusals are not modelled)
+				need := 1
+				if form == ":v" {
+					need = 2
+				}
+				for _, id := range append([]int{a}, others...) {
+					if s, ok := shapeAfter("f64", p.prog(), id); !ok || len(s) < need || len(s) != len(sh) {
+						form = ""
+					}
+				}
+			}
 			p.ops = append(p.ops, fmt.Sprintf("%s:%d:%d:%s%s", kind, a, axis, fints(others), form))
 		default:
 			axis := r.rangeInt(-1, len(sh)-1)
